@@ -12,6 +12,7 @@ import (
 	"errors"
 	"fmt"
 	"io"
+	"math"
 	"os"
 	"path/filepath"
 	"sort"
@@ -52,8 +53,9 @@ func NewBuilderSized(
 	if valueSizeBytes == 0 {
 		return nil, fmt.Errorf("valueSizeBytes must be > 0")
 	}
-	if valueSizeBytes > 255 {
-		return nil, fmt.Errorf("valueSizeBytes must be <= 255")
+	if valueSizeBytes > math.MaxUint8-HashSize {
+		// the entry stride (hash + value) is held in one byte
+		return nil, fmt.Errorf("valueSizeBytes must be <= %d", math.MaxUint8-HashSize)
 	}
 	if numItems == 0 {
 		return nil, fmt.Errorf("numItems must be > 0")
@@ -123,6 +125,14 @@ func (b *Builder) getValueSize() int {
 // Index generation will fail if the same key is inserted twice.
 // The writer must not pass a value greater than targetFileSize.
 func (b *Builder) Insert(key []byte, value []byte) error {
+	if len(key) > math.MaxUint16 {
+		// the key length is recorded in 16 bits in the temporary bucket file
+		return fmt.Errorf("key is too long: %d bytes (max %d)", len(key), math.MaxUint16)
+	}
+	if len(value) > b.getValueSize() {
+		// a longer value would be silently truncated in the temporary bucket file
+		return fmt.Errorf("value has %d bytes, but the index was created for values of %d bytes", len(value), b.getValueSize())
+	}
 	return b.buckets[b.Header.BucketHash(key)].writeTuple(key, value)
 }
 
